@@ -164,6 +164,18 @@ U('bucketing_segment_for_key', fam_ef, 'Bucketing_segment_for_key', ['C09', 'C16
                'sdsl::int_vector cell read [A]'])
 
 
+U('bucketing_build_top_level', fam_ef, 'Bucketing_build_top_level', ['C09', 'C17', 'C20'], decls=['ef_ghost', 'bucketing_ghost', 'bucketing_builder'],
+  lemmas=['IntVector_make', 'IntVector_set'], macros=fam_ef.MACROS + [(fam_ef.HPP, 'CEIL_INT_DIV')], insts=BK_Q[:1], thorough_insts=BK_Q, spec=('ef.spec',),
+  cases=[('BK_T', str(1 << e)) for e in range(1, 13)], timeout=900, mem_gb=8,
+  assumptions=['proved per concrete power-of-two TopLevelSize in {2,4,...,4096} (constant step); the division variant is not attempted (S.6)',
+               'sdsl::int_vector construction / cell write replaced by assumed contracts over a witness cell [A]; segment keys strictly increasing (lemma, established by build)'])
+
+U('lemma_bucketing_table', fam_ef, 'lemma_bucketing_table', ['C09'], lemma_only=True, decls=['ef_ghost', 'ef_ghost2', 'bucketing_ghost', 'bucketing_table', 'bucketing_builder', 'bucketing_link_lemma'],
+  target_sig='void lemma_bucketing_table(const Bucketing *self, K key, size_t j, size_t tj, size_t tj1, size_t resp, size_t ncells)', lemmas=['lemma_segments_sorted'],
+  insts=BK_Q, spec=('ef.spec',),
+  assumptions=['a lemma over contracts (spec text, no repository code): links the cell facts proved for build_top_level to the precondition of the search side; symbolic power-of-two TopLevelSize 2..4096',
+               'segment keys strictly increasing (lemma, established by build)'])
+
 # ---------------------------------------------------------------------------------------------------
 # CompressedPGMIndex: level accessors (search/ctor/merge_slopes: bounded native link)
 CP_Q = [uinst('uint64_t'), uinst('uint32_t')]
